@@ -55,11 +55,14 @@ def digitsVal : Str → Nat → Option Nat
   | c :: cs, acc => if isDigit c then digitsVal cs (acc * 10 + (c.toNat - '0'.toNat)) else none
 
 /-- `str::parse::<uN>()` with `bound = 2^N`: optional `+`, at least one ASCII digit, no overflow. -/
+def stripPlus : Str → Str
+  | '+' :: r => r
+  | s => s
+
 def parseUnsigned (bound : Nat) (s : Str) : Option Nat :=
-  let ds := match s with | '+' :: r => r | _ => s
-  match ds with
+  match stripPlus s with
   | [] => none
-  | _ =>
+  | ds =>
     match digitsVal ds 0 with
     | some n => if n < bound then some n else none
     | none => none
